@@ -1,7 +1,7 @@
 (* C13 — Quad vector and its builder store exactly the pushed 2-bit symbols.
    This file contains only statements, closed by [exact], and their assumption audit. *)
 From Coq Require Import ZArith.
-From QwtModel Require Import ListX Consts QVec QVecP.
+From QwtModel Require Import ListX Consts Words QVec QVecP LeafP.
 
 (* collecting any list of integers (any primitive integer type: the value enters as a
    mathematical integer and is cast with as_ to u8) gives a quad vector whose length is the
@@ -34,3 +34,29 @@ Theorem C13_example :
   end.
 Proof. exact qvb_history_example. Qed.
 Print Assumptions C13_example.
+
+(* ---- the 512-bit data line: word view (four u128, two bit planes — the layout of
+   DataLine { words: [u128; 4] } that the byte-exact state tie compares with the real value)
+   versus the list view the theorems above are stated on.  For every well-formed line
+   (256 symbols < 4) the word-level read, rank and write of Model/Words.v (transcribed from
+   DataLine::get_unchecked / rank_unchecked / set_symbol: shifts, masks, REPEATEDSYMB
+   normalisation, popcounts) compute exactly the list-level results. *)
+Theorem C13_line_words : forall l, line_ok l ->
+  len (pack_qline l) = 4 /\ Forall (fun w => w < 2 ^ 128) (pack_qline l).
+Proof. exact pack_qline_words. Qed.
+Print Assumptions C13_line_words.
+
+Theorem C13_line_get : forall l i x, line_ok l -> nthN l i = Some x ->
+  qline_get_unchecked (pack_qline l) i = Val x.
+Proof. exact qline_get_correct. Qed.
+Print Assumptions C13_line_get.
+
+Theorem C13_line_rank : forall l c i, line_ok l -> c <= 3 -> i <= 256 ->
+  qline_rank_unchecked (pack_qline l) c i = Val (countN c (firstnN i l)).
+Proof. exact qline_rank_correct. Qed.
+Print Assumptions C13_line_rank.
+
+Theorem C13_line_set : forall l i s, line_ok l -> i < 256 ->
+  qline_set_symbol (pack_qline l) s i = Val (pack_qline (line_set_symbol l s i)).
+Proof. exact line_set_refined. Qed.
+Print Assumptions C13_line_set.
